@@ -9,8 +9,9 @@ QuickOptions == { O(TRUE, FALSE, "S256", FALSE, "echo"), O(FALSE, TRUE, "none", 
                   O(TRUE, TRUE, "none", TRUE, "echo"), O(FALSE, FALSE, "plain", FALSE, "echo"),
                   O(TRUE, FALSE, "none", FALSE, "other"), O(FALSE, FALSE, "S256", FALSE, "absent"),
                   O(TRUE, FALSE, "none", FALSE, "empty"), O(TRUE, FALSE, "none", FALSE, "raw"), O(FALSE, FALSE, "none", TRUE, "absent"),
+                  O(TRUE, FALSE, "none", FALSE, "replay"), O(FALSE, FALSE, "S256", FALSE, "replay"), O(FALSE, FALSE, "none", TRUE, "replay"),
                   O2(FALSE, FALSE, "S256", FALSE, "echo", "plain"), O2(TRUE, FALSE, "plain", FALSE, "echo", "s256"), O2(FALSE, TRUE, "S256", FALSE, "echo", "absent") }
 AllOptions == [perReq : BOOLEAN, encodeState : BOOLEAN, pkce : {"none", "S256", "plain"}, skipNonce : BOOLEAN,
-               idpNonce : {"echo", "other", "empty", "absent", "raw"}, advertise : {"both"}]
+               idpNonce : {"echo", "other", "empty", "absent", "raw", "replay"}, advertise : {"both"}]
               \cup { O2(pr, FALSE, pk, FALSE, "echo", advm) : pr \in BOOLEAN, pk \in {"S256", "plain"}, advm \in {"plain", "s256", "absent"} }
 =============================================================================
